@@ -756,7 +756,7 @@ class Module(HasAccessibles):
 
             for pname, pobj in mobj.parameters.items():
                 rfunc = getattr(mobj, 'read_' + pname)
-                if rfunc.poll:
+                if rfunc.poll and pobj.constant is None:  # a constant is never read from the hardware
                     pinfo.polled_parameters.append((mobj, rfunc, pobj))
         while True:
             try:
